@@ -56,7 +56,47 @@ def run(ctx):
         return None
     st = Stream("layer_hidden_transparent", lines, oracle=oracle, nontrivial=lambda i, l, o: o.startswith("fwd"),
                 desc="every HiddenFS method (except RemoveAll) on non-hidden names incl. siblings sharing a string prefix with a hidden path, %d hidden sets; oracle: exactly one forwarded call with unchanged arguments and results; non-trivial = forwarded" % (len(hg.HIDDEN_SETS) + 1))
-    return {"streams": [run_t1_stream("C15", st, model_ok), twin_stream(tier, rnd, model_ok)]}
+    return {"streams": [run_t1_stream("C15", st, model_ok), listing_stream(tier, rnd, model_ok), twin_stream(tier, rnd, model_ok)]}
+
+
+def listing_stream(tier, rnd, model_ok):
+    """directories without hidden entries (incl. the sibling sharing a hidden path's prefix):
+    the listing through HiddenFS is the underlying listing, batch by batch"""
+    import itertools
+    names = [b"a", b"b", b"backups", b"backups2", b"\xc3\xa4", b"c"]
+    configs = [(b"/var/backups2", [b"/var/backups"]), (b"/o", [b"/var/backups"]), (b"/var", []), (b"/", [b"/var/backups/deep"]),
+               (b"var2", [b"var/backups"])]
+    cases = []
+    maxn = 4 if tier == "quick" else 6
+    for dirp, hs in configs:
+        for k in range(0, maxn + 1):
+            content = names[:k]
+            counts = list(range(-1, k + 2))
+            seqs = [[c] for c in counts] + [[a, b] for a in counts for b in counts if a > 0] + [[1] * (k + 2), [2] * (k + 1), [1, 2, 3], [3, 1, 1, 1]]
+            for seq in seqs:
+                for kind in ("names", "infos"):
+                    cases.append((dirp, hs, content, seq, kind))
+    lines = ["hlist %s %s %s %s %s" % (enc(d), enc_list(hs), enc_list(c), ",".join(map(str, sq)), kind) for (d, hs, c, sq, kind) in cases]
+
+    def oracle(i, line, out):
+        dirp, hs, content, seq, kind = cases[i]
+        rest = list(content)
+        toks = out.split(" ")
+        if len(toks) != len(seq):
+            return "%d calls, %d results: %s" % (len(seq), len(toks), out)
+        for cnt, tok in zip(seq, toks):
+            if tok == "err":
+                return "listing %r of %r (nothing hidden in it) fails" % (seq, content)
+            got = dec_list(tok.split(":", 1)[1])
+            want = rest if cnt <= 0 else rest[:cnt]
+            if got != want:
+                return "%s(%d) on %r with %r remaining (hidden %r elsewhere) returned %r, the underlying directory returns %r" % (
+                    "Readdirnames" if kind == "names" else "Readdir", cnt, dirp, rest, hs, got, want)
+            rest = rest[len(want):]
+        return None
+    st = Stream("listing_transparent", lines, oracle=oracle, nontrivial=lambda i, l, o: cases[i][2] != [],
+                desc="Readdir/Readdirnames through HiddenFS on directories that contain nothing hidden (sibling of a hidden path, unrelated directory, no hidden paths at all), every count -1..size+1 and sequences of calls; oracle: each batch is exactly the batch the underlying directory returns (entries and order)")
+    return run_t1_stream("C15", st, model_ok)
 
 
 def twin_stream(tier, rnd, model_ok):
